@@ -52,6 +52,9 @@ func rulesC01(c *Ctx) {
 	// later attempt) is decided by the execution's cancel-result slot: it is reported while set and discarded when
 	// the next attempt starts, so that an inner policy's stale verdict never replaces the outer policy's
 	execStateMethods(c, map[string]bool{"Cancel": true, "InitializeRetry": true, "IsCanceledWithResult": true, "isCanceledWithResult": true})
+	// "the caller receives precisely the outermost policy's result and error", also through the async accessors
+	// (Get, Result, Error all report what the runner recorded)
+	asyncResultRules(c)
 }
 
 // resultField loads field f of the PolicyResult a returned pointer term points to.
@@ -681,7 +684,50 @@ func c01Self(c *Ctx) {
 // context given (its values — the cache key — its deadline and its cancellation are what executions see; a nil
 // context keeps the old one), the same policies and listeners, and nothing else happens. The listeners live in the
 // executor itself, not behind a pointer the copies would share.
+// c01DefaultContext: an executor that was given no context carries context.Background() itself. The adapters'
+// MergeContexts recognises "no execution context" by identity with context.Background() and then hands the caller's
+// context through unchanged; any other placeholder (context.TODO(), a derived context) makes every attempt run under a
+// merged child that is cancelled as soon as the attempt function returns — while the response body is still being read.
+func c01DefaultContext(c *Ctx) {
+	c.Rule("default-context")
+	fn := c.P.Func("failsafe.NewExecutor")
+	if fn == nil {
+		c.Unresolved("failsafe.NewExecutor", "not found")
+		return
+	}
+	name, pos := c.fn(fn), c.P.FuncPos(fn)
+	ev := NewEvaluator(c.P, EvalConfig{})
+	ps := ev.Run(fn)
+	if ev.Err != nil || len(ps) == 0 {
+		c.Undecided(name, pos, fmt.Sprintf("evaluation failed: %v", ev.Err), "")
+		return
+	}
+	ok := true
+	for _, p := range ps {
+		if p.Exit != ExitReturn || len(p.Rets) != 1 {
+			continue
+		}
+		ctx := ev.LoadField(p.State, p.Rets[0], "ctx")
+		isBg := false
+		if ctx != nil {
+			for _, e := range p.Events() {
+				if e.Kind == EvCall && e.Callee == "context.Background" && len(e.Res) == 1 && e.Res[0] == ctx {
+					isBg = true
+				}
+			}
+		}
+		if !isBg {
+			ok = false
+			c.Fail(name, pos, "an executor without a configured context must carry context.Background() itself (MergeContexts recognises the absence of an execution context by that identity)", pathTrace(ev, p))
+		}
+	}
+	if ok {
+		c.Ok(name, pos, "ctx = context.Background()")
+	}
+}
+
 func c01WithContext(c *Ctx) {
+	c01DefaultContext(c)
 	c.Rule("with-context")
 	fn := c.P.Func("failsafe.(*executor).WithContext")
 	if fn == nil {
